@@ -156,7 +156,26 @@ def cli_leg(rep, tier):
             mmd.rng_fresh(); lib = mmd.convert_to_data(LDOC, mmd.EXT_DEFAULT, fmt, li, None, 1)
             if a != lib:
                 rep.add_violation("entry:differs:cli-language-option:%s" % code, "CLI -l %s -t %s differs from the library called with language %d" % (code, fname, li), dict(src=LDOC.decode(), format=fname, flags=["-l", code]), replay=dict(kind="cli"))
+    # packaged formats: -o FILE and stdout carry the same kind of result (one archive with the same members); content bytes vary with time stamps and identifiers and are judged by C09
+    import zipfile, io
+    PDOC = b"Title: P\nCSS: a.css\n\n# H\n\ntext ![a](i.png) more\n"
+    psub = os.path.join(tmp, "pack"); os.makedirs(psub, exist_ok=True); open(os.path.join(psub, "in.txt"), "wb").write(PDOC)
+    for f in ("i.png", "a.css"): shutil.copy(os.path.join(core.VERIF, "fixtures", "assets", f), psub)
+    def members(data):
+        try: return sorted(re.sub(r"[0-9a-f]{8}(-[0-9a-f]{4}){3}-[0-9a-f]{12}", "<id>", n) for n in zipfile.ZipFile(io.BytesIO(data)).namelist())      # stored assets get a fresh identifier per run
+        except Exception: return None
+    npack = 0
+    for fname in ("epub", "odt", "bundlezip", "bundle", "itmz"):
+        npack += 1; case_d = dict(src=PDOC.decode(), format=fname, flags=["-o"])
+        a = subprocess.run([cli, "-t", fname, "in.txt"], capture_output=True, cwd=psub).stdout
+        o = os.path.join(psub, "out_" + fname); subprocess.run([cli, "-t", fname, "-o", o, "in.txt"], capture_output=True, cwd=psub)
+        ma = members(a)
+        if ma is None: rep.add_violation("entry:cli-packaged-stdout-not-an-archive:" + fname, "CLI -t %s to stdout is not a ZIP archive" % fname, case_d, replay=dict(kind="cli")); continue
+        if not os.path.isfile(o): rep.add_violation("entry:differs:cli -o:packaged:" + fname, "CLI -t %s -o FILE did not write one regular file (%s)" % (fname, "a directory" if os.path.isdir(o) else "nothing"), case_d, replay=dict(kind="cli")); continue
+        mo = members(open(o, "rb").read())
+        if mo != ma: rep.add_violation("entry:differs:cli -o:packaged:" + fname, "CLI -t %s -o FILE holds members %r, stdout holds %r" % (fname, mo, ma), case_d, replay=dict(kind="cli"))
     shutil.rmtree(tmp, ignore_errors=True)
+    rep.add_level("cli-packaged", npack, npack, True, 0.0, npack, "CLI -t {epub, odt, bundlezip, bundle, itmz}: -o FILE is one regular file holding the same archive members as stdout")
     rep.add_level("cli", len(jobs) * 4, len(jobs) * 4, True, time.time() - t0, len(jobs), "CLI stdin->stdout, file->stdout, -o, -b (bare name, relative and absolute path with directories) and the library on a sub-grid of sources x text formats x flag sets")
 
 def run(tier):
